@@ -114,7 +114,9 @@ def obligations(ctx):
             ob.finish(E, (lambda m, vals=vals: ("e2n_script_fee", vals(m))) if has_redeemers else None)
 
     # ------------------------------------------------------------ tiered reference-script fee
-    tiers = range(0, 9) if ctx.tier == "quick" else range(0, 49)
+    # beyond the first tiers: counts far past the point where a price of 1 would overflow (1.2^244 > 2^64) — a tiny or zero
+    # price still has an exact 64-bit result there, and the function has to return it
+    tiers = (list(range(0, 9)) + [260]) if ctx.tier == "quick" else (list(range(0, 49)) + [100, 256, 257, 300, 600])
     for n in tiers:
         E = Engine(P)
         r, pa, pb = E.sym_int("rem", "usize"), E.sym_int("pa", "u64"), E.sym_int("pb", "u64")
